@@ -653,20 +653,12 @@ func judge(a gen.Ali, cfg config, weights []float64, d [][]float64, o *pbt.Outco
 	if e != nil {
 		return v, fmt.Errorf("reference model: %v", e)
 	}
+	// gap-site removal is judged under the reading of the function's own doc comment ("sites that contain
+	// only [residues] and no gaps": a column holding '-', X or '*' in any row is removed), which is what
+	// the unchanged code does; the looser wording of the flag help ("positions containing >=1 gaps") was
+	// accepted as a second reading until round 7 and let a re-implementation keeping the X/'*' columns
+	// through.
 	readings := []*reading{strict}
-	if cfg.RmGaps {
-		loose, e := newReading(a, cfg, w, false)
-		if e != nil {
-			return v, fmt.Errorf("reference model: %v", e)
-		}
-		for j := range loose.sel {
-			if loose.sel[j] != strict.sel[j] {
-				readings = append(readings, loose)
-				o.Ambiguous++
-				break
-			}
-		}
-	}
 	v.flat = make([][]int, n)
 	for i := range v.flat {
 		v.flat[i] = make([]int, n)
